@@ -152,6 +152,75 @@ def h_equity(ctx: Any, n: int, hilo: bool, levels: int = 0) -> None:
     ctx.cover('done')
 
 
+def h_equity_ranges(ctx: Any) -> None:
+    """ranges whose combinations may collide with the board or with each other: impossible deals are
+    left out, the result is the average over the possible ones (real hand types, concrete cards)."""
+    import pokerkit.analysis as A
+    from pokerkit.hands import StandardHighHand
+    from pokerkit.utilities import Card, Deck
+    A.sample = lambda population, k: list(population)[:k]
+    A.choices = lambda population, k: [list(population)[i % len(population)] for i in range(k)]
+    deck = list(Deck.STANDARD)
+    pool = [c for c in deck if str(c.rank.value) in 'AKQ']          # 12 cards
+    board = [deck[0], deck[5], deck[10], deck[15], pool[ctx.choice('b', len(pool))]]
+    combos = [[pool[0], pool[4]], [pool[1], pool[5]], [pool[2], pool[6]]]     # e.g. Ac Kc / Ad Kd / Ah Kh
+    other = [[pool[ctx.choice('o1', len(pool))], pool[ctx.choice('o2', len(pool))]]]
+    ctx.assume(other[0][0] != other[0][1])
+    valid = []
+    for c in combos:
+        cards = c + other[0] + board
+        if len(set(cards)) == len(cards):
+            valid.append(c)
+    ctx.assume(len(valid) >= 1 and len(set(other[0] + board)) == 7)
+    k = 6 * len(valid)
+    eq = A.calculate_equities([combos, other], board, 2, 5, Deck.STANDARD, (StandardHighHand,), sample_count=k)
+    exp = [0.0, 0.0]
+    for c in valid:
+        h0 = StandardHighHand.from_game(c, board)
+        h1 = StandardHighHand.from_game(other[0], board)
+        if h0 > h1:
+            exp[0] += 1.0
+        elif h1 > h0:
+            exp[1] += 1.0
+        else:
+            exp[0] += 0.5
+            exp[1] += 0.5
+    exp = [x / len(valid) for x in exp]
+    ctx.check(abs(eq[0] - exp[0]) < 1e-9 and abs(eq[1] - exp[1]) < 1e-9, 'equity-over-impossible-deals',
+              lambda: f'board {board} ranges {combos} vs {other}: {eq} expected {exp}')
+    if len(valid) < len(combos):
+        ctx.cover('collision')
+    ctx.cover('done')
+
+
+def h_icm_grid(ctx: Any, n: int, k: int) -> None:
+    """ICM on small integer chip vectors (ties included) vs an exact reference built from Fractions."""
+    from fractions import Fraction
+    from itertools import permutations
+    from pokerkit.analysis import calculate_icm
+    chips = [1 + ctx.choice(f'c{i}', 3) for i in range(n)]
+    payouts = [50, 30, 20, 10][:k]
+    got = calculate_icm(payouts, chips)
+    total = sum(chips)
+    ref = [Fraction(0)] * n
+    for order in permutations(range(n), k):
+        p = Fraction(1)
+        rest = Fraction(total)
+        for i in order:
+            p *= Fraction(chips[i]) / rest
+            rest -= chips[i]
+        for pay, i in zip(payouts, order):
+            ref[i] += pay * p
+    for i in range(n):
+        ctx.check(abs(got[i] - float(ref[i])) < 1e-9, 'icm-value', lambda: f'{payouts} {chips}: {got} expected {[float(x) for x in ref]}')
+        ctx.check(got[i] >= -1e-12, 'icm-negative')
+        for j in range(n):
+            if chips[i] >= chips[j]:
+                ctx.check(got[i] >= got[j] - 1e-9, 'icm-order', lambda: f'{chips}: {got}')
+    ctx.check(abs(sum(got) - sum(payouts)) < 1e-9, 'icm-sum')
+    ctx.cover('done')
+
+
 def smt_icm(n: int, k: int, budget_s: float = 250) -> dict:
     """the REAL calculate_icm executed on z3 Reals."""
     import z3
@@ -159,7 +228,11 @@ def smt_icm(n: int, k: int, budget_s: float = 250) -> dict:
     t0 = time.time()
     chips = [z3.Real(f'c{i}') for i in range(n)]
     pay = [z3.Real(f'p{j}') for j in range(k)]
-    vals = calculate_icm(pay, chips)
+    try:
+        vals = calculate_icm(pay, chips)
+    except Exception as e:
+        return dict(status='inconclusive', queries=0,
+                    reason=f'calculate_icm cannot be executed on z3 Reals any more: {type(e).__name__}: {e}'[:300])
     dom = [c > 0 for c in chips] + [p >= 0 for p in pay] + [pay[j] >= pay[j + 1] for j in range(k - 1)]
     obligations = [('nonneg', z3.Or(*[v < 0 for v in vals])), ('sum', sum(vals) != sum(pay))]
     for i in range(n):
@@ -206,6 +279,11 @@ def jobs(tier: str, seed: int) -> list[dict]:
             out.append(dict(name=f'equities/n{n}/{"hilo" if hilo else "hi"}', fn='h_equity',
                             params=dict(n=n, hilo=hilo, levels=2 if (hilo and n == 3) else 0), budget_s=B,
                             must_cover=['done']))
+    out.append(dict(name='equities/ranges-with-collisions', fn='h_equity_ranges', traced=False, params={}, budget_s=B,
+                    must_cover=['done', 'collision']))
+    for n, k in ((2, 2), (3, 2), (3, 3), (4, 3)):
+        out.append(dict(name=f'icm/grid/n{n}/payouts{k}', fn='h_icm_grid', traced=False, params=dict(n=n, k=k),
+                        budget_s=B, must_cover=['done']))
     for n, k in ((2, 1), (2, 2), (3, 1), (3, 2), (3, 3), (4, 1), (4, 2)):
         out.append(dict(name=f'icm/n{n}/payouts{k}', kind='native', fn='smt_icm', params=dict(n=n, k=k, budget_s=B),
                         budget_s=B))
